@@ -72,6 +72,11 @@ def firstIdx (p : Rule → Bool) : List Rule → Option Nat
   | [] => none
   | r :: t => if p r then some 0 else (firstIdx p t).map (· + 1)
 
+/-- `self._cssRules and self._cssRules[0].type == rule.CHARSET_RULE` -/
+def headIsCharset : List Rule → Bool
+  | .charset _ :: _ => true
+  | _ => false
+
 structure InsRes where
   rules : List Rule
   index : Nat
@@ -84,7 +89,7 @@ def insertRule (rules : List Rule) (rule : Rule) (index : Option Nat) (inOrder :
   let idx := index.getD rules.length
   if idx > rules.length then .error .indexSizeErr
   else
-    let head0Charset : Bool := match rules with | .charset _ :: _ => true | _ => false
+    let head0Charset : Bool := headIsCharset rules
     match rule with
     | .charset e =>                                                  -- :649-667
       if inOrder then
@@ -131,18 +136,22 @@ def insertRule (rules : List Rule) (rule : Rule) (index : Option Nat) (inOrder :
 def deleteRule (rules : List Rule) (i : Nat) : Except DomErr (List Rule) :=
   if i < rules.length then .ok (rules.eraseIdx i) else .error .indexSizeErr
 
+/-- `if encoding:` -/
+def truthy : Option Name → Bool
+  | some (_ :: _) => true
+  | _ => false
+
 /-- `sheet.encoding = e` (`cssstylesheet.py:435-451`); `e = none` is `None`, `some []` is `''` -/
 def setEncoding (valid : Name → Bool) (rules : List Rule) (e : Option Name) : Except DomErr (List Rule) :=
-  let truthy : Bool := match e with | some (_ :: _) => true | _ => false
   let n := e.getD []
   match rules with
   | .charset old :: rest =>
-    if truthy then
+    if truthy e then
       if valid n then .ok (.charset (lower n) :: rest)               -- `rule.encoding = encoding`
       else .error .syntaxErr                                         -- raised by `_log.error`, nothing changed
     else deleteRule (.charset old :: rest) 0
   | _ =>
-    if truthy then
+    if truthy e then
       if valid n then
         match insertRule rules (.charset (lower n)) (some 0) false with
         | .ok r => .ok r.rules
